@@ -22,6 +22,11 @@ def instances(name, rng, quick):
     if name.startswith("DTLZ") or name.startswith("WFG"):
         extra = {"DTLZ2": [(3, 5), (2, 4), (3, 2)], "DTLZ3": [(2, 4), (3, 2)]}.get(name, [])
         return [cls(m) for m in ((2, 3) if quick else (2, 3, 4, 5))] + [cls(m, n) for m, n in extra]
+    # default size, plus other numbers of variables (odd and even): the CEC 2009 index sets J1 / J2 / J3 depend on the parity
+    import inspect
+    if "nvars" in inspect.signature(cls.__init__).parameters:
+        dflt = cls().nvars
+        return [cls()] + [cls(nvars=n_) for n_ in sorted({5, 6, 7, 11, dflt + 1} - {dflt})][: (2 if quick else 5)]
     return [cls()]
 
 
@@ -98,7 +103,7 @@ def run(ctx, drv):
     rng = ctx.rng
     ctx.nontrivial_rule = ("all 43 problem classes x supported numbers of objectives (DTLZ / WFG: 2-3 quick, 2-5 thorough) x in-bounds decision "
                            "vectors (random, up to 64 corners, boundary and special values 0, .25, .35, .5, .75, 1 of every range); samplers: "
-                           "40 draws per instance. non-trivial = not all variables at a bound; distinct by (class, vector)")
+                           "40 draws per instance. non-trivial = not all variables at a bound; distinct by (class, vector) + non-default numbers of variables for UF / CF / ZDT, Solution objects re-used for several points, FixedLengthArray slice assignment against its model")
     reqs, post = [], []
 
     def ask(line, fn):
